@@ -143,14 +143,13 @@ End Top.
 (* ------------------------------------------------------------------ static statements *)
 Theorem close_once_static (M : mtable) :
   close_ok M = true ->
-  forall m p acts, In m (mt_methods M) -> In p (m_paths m) -> run_path p = Some acts ->
+  forall m p acts, In m (mt_methods M) -> (In p (m_paths m) \/ unf (m_body m) p true) -> run_path p = Some acts ->
     if m_chan m then
       (In (ChanNil true) acts /\ count_close acts = 0 /\ ~ In Send acts) \/
       (~ In (ChanNil true) acts /\ count_close acts = 1 /\ no_send_after_close acts)
     else count_close acts = 0 /\ ~ In Send acts.
 Proof.
-  intros H m p acts Hm Hp Hr. unfold close_ok in H. rewrite forallb_forall in H. specialize (H m Hm).
-  rewrite forallb_forall in H. specialize (H p Hp). destruct (m_chan m).
+  intros H0 m p acts Hm Hp Hr. pose proof (close_ok_path M m p H0 Hm Hp) as H. destruct (m_chan m).
   - apply (path_close_ok_sound p acts H Hr).
   - unfold path_close_ok in H. rewrite Hr in H. apply negb_true_iff in H.
     assert (Hn : forall a, In a acts -> is_chanop a = false).
@@ -175,7 +174,8 @@ Qed.
 
 Theorem close_once_call (M : mtable) :
   close_ok M = true ->
-  forall m c acts, In m (mt_methods M) -> m_chan m = true -> In (c_path c) (m_paths m) ->
+  forall m c acts, In m (mt_methods M) -> m_chan m = true ->
+    (In (c_path c) (m_paths m) \/ unf (m_body m) (c_path c) true) ->
     run_path (c_path c) = Some acts -> ~ In (ChanNil true) acts ->
     count_aclose (call_items c) = 1.
 Proof.
